@@ -128,8 +128,9 @@ ROUND6 = {   # clauses added in the sixth round (DESIGN.md section 11.6)
 }
 CANON_NOTE = (" Before any rule runs the parsed tree is brought to the vocabulary of a frozen inventory of the clean tree (sa/canon.py, sa/inventory.json): "
               "effect-free logging and assertions dropped, new literal constants written out, new optional parameters fixed at their defaults, renames of private "
-              "helpers / attributes / registry keys undone, helpers the inventory does not know inlined, new local aliases written out. On the unchanged tree "
-              "this does nothing; it only rewrites, every verdict is a rule's.")
+              "helpers / attributes / registry keys undone, helpers the inventory does not know inlined (also from base classes), new NamedTuples read as tuples, "
+              "new context-manager classes as try/finally, loops over literal tables written out, new local aliases written out. On the unchanged tree "
+              "this does nothing; it only rewrites, every verdict is a rule's. A shape it cannot bring back is reported as ANALYSIS-ERROR (exit 2), never as a verdict.")
 
 
 def main():
